@@ -10,7 +10,7 @@ use crate::traits::HighwayHash;
 ///
 /// The main reason for directly using `PortableHash` would be if avoiding
 /// `unsafe` code blocks is a top priority.
-#[derive(Debug, Default, Clone)]
+#[derive(Debug, Clone)]
 pub struct PortableHash {
     pub(crate) v0: [u64; 4],
     pub(crate) v1: [u64; 4],
@@ -58,6 +58,12 @@ impl HighwayHash for PortableHash {
         buffered.copy_from_slice(&self.buffer.buf);
         rest.copy_from_slice(&(self.buffer.len() as u32).to_le_bytes());
         result
+    }
+}
+
+impl Default for PortableHash {
+    fn default() -> Self {
+        PortableHash::new(Key::default())
     }
 }
 
